@@ -8,4 +8,5 @@ THEOREMS = [
     "JanetModel.Props.C02.copy_correct",
     "JanetModel.Props.C02.regtemp_disjoint",
     "JanetModel.Props.C02.regtemp_model_eq",
+    "JanetModel.Props.C02.sem_context_free",
 ]
